@@ -205,7 +205,8 @@ size_t Port::MetaContainer::length(void) const
         const char *itr = str_ptr;
         while(prev || *itr)
             prev = *itr++;
-        return 2+(itr-str_ptr);
+        //the container may or may not have been handed the leading ':'
+        return (*str_ptr == ':' ? 1 : 2)+(itr-str_ptr);
 }
 
 const char *Port::MetaContainer::operator[](const char *str) const
